@@ -89,7 +89,7 @@ func SyncAddr(p unsafe.Pointer) {
 
 // readAccess records a read by the current goroutine and reports a race with
 // the last writer when no happens-before edge orders write and read.
-func readAccess(loc unsafe.Pointer, site string) {
+func readAccess(loc unsafe.Pointer, kind, site string) {
 	if loc == nil || s.cur == nil {
 		return
 	}
@@ -98,7 +98,7 @@ func readAccess(loc unsafe.Pointer, site string) {
 		g.tick()
 	}
 	if w, ok := s.writes[loc]; ok && w.gid != g.id && w.clk > g.vc.get(w.gid) {
-		reportRace("map-read-write", w.site, site, w.name, g.name)
+		reportRace(kind, w.site, site, w.name, g.name)
 	}
 	if s.reads == nil {
 		s.reads = map[unsafe.Pointer]*readSet{}
@@ -157,10 +157,14 @@ func writeAccess(loc unsafe.Pointer, kind, site string) {
 		reportRace(kind, w.site, site, w.name, g.name)
 	}
 	// write after an unordered read by another goroutine
-	if rs := s.reads[loc]; rs != nil && kind == "map-write" {
+	if rs := s.reads[loc]; rs != nil {
+		rk := "read-update"
+		if kind == "map-write" {
+			rk = "map-read-write"
+		}
 		for gid, c := range rs.clk {
 			if gid != g.id && c > 0 && c > g.vc.get(gid) {
-				reportRace("map-read-write", rs.site[gid], site, s.all[gid].name, g.name)
+				reportRace(rk, rs.site[gid], site, s.all[gid].name, g.name)
 			}
 		}
 	}
@@ -199,5 +203,26 @@ func MR[M ~map[K]V, K comparable, V any](m M, site string) {
 	if !s.active || s.nlive < 2 || m == nil {
 		return
 	}
-	readAccess(*(*unsafe.Pointer)(unsafe.Pointer(&m)), site)
+	readAccess(*(*unsafe.Pointer)(unsafe.Pointer(&m)), "map-read-write", site)
+}
+
+// WR is inserted by the rewriter before every plain assignment to a location
+// reachable through a field, element, dereference or package-level variable.
+// Only while more than one goroutine is alive (phase 1).
+func WR[T any](p *T, site string) {
+	if !s.active || s.nlive < 2 {
+		return
+	}
+	writeAccess(unsafe.Pointer(p), "update", site)
+}
+
+// RD is inserted by the rewriter before statements that unconditionally read a
+// field of a struct that carries its own lock (a struct with a sync.Mutex,
+// RWMutex, WaitGroup, Once, Map or atomic field): the state the code itself
+// declares to be shared. Only while more than one goroutine is alive.
+func RD[T any](p *T, site string) {
+	if !s.active || s.nlive < 2 {
+		return
+	}
+	readAccess(unsafe.Pointer(p), "read-update", site)
 }
